@@ -18,6 +18,43 @@ type C11Case struct {
 	// High > 0: a second stump holding High opaque leaves in front of the same forest gets the same
 	// blocks (positions shifted into its layout); its UpdateData must be the shifted expectation.
 	High uint64 `json:"high,omitempty"`
+	// Args: how the caller lays out the block data it hands to Update. "" - three independent
+	// exact-size copies; "nil" - every empty list is a nil slice (the README's deletion example passes nil
+	// additions); "onebuf" - deletions and additions are the two halves buf[:d], buf[d:] of ONE array (so
+	// the deletions' spare capacity is the additions), the proof hashes have spare capacity as well.
+	Args string `json:"args,omitempty"`
+}
+
+// c11Args lays the block data out as the case says.
+func c11Args(mode string, delH, addH []Hash, proof u.Proof) ([]Hash, []Hash, u.Proof, error) {
+	d, a, p := cloneHashes(delH), cloneHashes(addH), cloneProof(proof)
+	switch mode {
+	case "":
+	case "nil":
+		if len(d) == 0 {
+			d = nil
+		}
+		if len(a) == 0 {
+			a = nil
+		}
+		if len(p.Targets) == 0 {
+			p.Targets = nil
+		}
+		if len(p.Proof) == 0 {
+			p.Proof = nil
+		}
+	case "onebuf":
+		buf := make([]Hash, len(delH)+len(addH))
+		copy(buf, delH)
+		copy(buf[len(delH):], addH)
+		d, a = buf[:len(delH)], buf[len(delH):]
+		ph := make([]Hash, len(proof.Proof), len(proof.Proof)+len(delH)+4)
+		copy(ph, proof.Proof)
+		p.Proof = ph
+	default:
+		return nil, nil, p, fmt.Errorf("case error: argument layout %q", mode)
+	}
+	return d, a, p, nil
 }
 
 // survivorHash is the hash of the pre-block node n once the given slots are deleted:
@@ -182,6 +219,9 @@ func runC11(c C11Case) *Result {
 	if c.High != 0 {
 		res.class(fmt.Sprintf("embedded:rows=%d", model.Rows(c.High+1)))
 	}
+	if c.Args != "" {
+		res.class("args:" + c.Args)
+	}
 	for i, b := range c.Blocks {
 		for _, s := range b.Del {
 			if s < 0 || s >= len(f.Dead) || f.Dead[s] {
@@ -193,7 +233,11 @@ func runC11(c C11Case) *Result {
 		proof := v.Proof(delH)
 		_, addH := mkLeavesSalt(b.Salt, len(f.Hashes), b.Add, nil)
 		wantPrevN, wantDestroy, wantDel, wantAdd := expectedUpdateData(f, b)
-		ud, err := st.Update(cloneHashes(delH), cloneHashes(addH), cloneProof(proof))
+		dArg, aArg, pArg, aerr := c11Args(c.Args, delH, addH, proof)
+		if aerr != nil {
+			return res.failf("%v", aerr)
+		}
+		ud, err := st.Update(dArg, aArg, pArg)
 		if err != nil {
 			res.class("setup-failed") // a valid block rejected: C01's business
 			return res
@@ -225,8 +269,8 @@ func runC11(c C11Case) *Result {
 				return res.failf("case error: %d leaves do not fit below the opaque trees of %d leaves", f.N(), c.High)
 			}
 			v2 := f.View()
-			bp := u.Proof{Targets: embedAll(proof.Targets, v, c.High), Proof: cloneHashes(proof.Proof)}
-			bud, err := big.Update(cloneHashes(delH), cloneHashes(addH), bp)
+			bd, ba, bp, _ := c11Args(c.Args, delH, addH, u.Proof{Targets: embedAll(proof.Targets, v, c.High), Proof: proof.Proof})
+			bud, err := big.Update(bd, ba, bp)
 			bw := fmt.Sprintf("%s, embedded behind %d opaque leaves (%d rows)", where, c.High, model.Rows(c.High+f.N()))
 			if err != nil {
 				return res.failf("%s: Stump.Update rejects the block although the small stump accepts it: %v", bw, err)
@@ -287,6 +331,7 @@ func TestC11(t *testing.T) {
 			total += b.Add
 		}
 		c.High = genHigh(t, total)
+		c.Args = rapid.SampledFrom([]string{"", "nil", "nil", "onebuf", "onebuf"}).Draw(t, "args")
 		return c
 	}, Run: runC11, Pre: preScaleC11})
 }
